@@ -7,11 +7,12 @@ from .faults import make_exc
 class SeekableSource:
     """A seekable, readable user stream positioned at `offset`."""
 
-    def __init__(self, world, tidx, data, offset):
+    def __init__(self, world, tidx, data, offset, short=False):
         self.world = world
         self.tidx = tidx
         self._data = data
         self._pos = offset
+        self._short = short
         self.start = offset
         self.ops = []          # (stamp, tid, op, pos, n)
         self._inside = 0
@@ -39,8 +40,17 @@ class SeekableSource:
                 exc = make_exc(f['exc'], f['id'])
                 w.faults.record(f, exc, w.sim.stamp(), t=self.tidx)
                 raise exc
-            if n is None or n < 0:
+            read_all = n is None or n < 0
+            if read_all:
                 n = len(self._data) - self._pos
+            n = min(n, len(self._data) - self._pos)
+            if self._short and n > 1 and not read_all:
+                # a raw stream may return fewer bytes than asked for
+                k = w.sim.choose(3, 'srcshort')
+                if k == 1:
+                    n = max(1, n // 2)
+                elif k == 2:
+                    n = n - 1
             out = self._data[self._pos:self._pos + n]
             self.ops.append((w.sim.stamp(), w.sim.current.tid, 'read',
                              self._pos, len(out)))
@@ -209,6 +219,13 @@ class NonSeekableDest:
             if f is not None:
                 exc = make_exc(f['exc'], f['id'])
                 w.faults.record(f, exc, w.sim.stamp(), t=self.tidx)
+                if isinstance(exc, BlockingIOError) and len(data) > 1:
+                    # partial write: the first k bytes went out before the pipe
+                    # was full
+                    k = 1 + f.get('partial', 0) % (len(data) - 1)
+                    exc.characters_written = k
+                    self.chunks.append((w.sim.stamp(), w.sim.current.tid, bytes(data[:k])))
+                    w.on_dest_write(self.tidx, None, k)
                 raise exc
             self.chunks.append((w.sim.stamp(), w.sim.current.tid, bytes(data)))
             w.on_dest_write(self.tidx, self.total, len(data))
